@@ -87,6 +87,33 @@ theorem step_local {s s' : St V} {l : Label V} (h : step s l = some s') :
   | cClose => obtain ⟨_, rfl⟩ := step_cClose h; exact ⟨rfl, .inl ⟨rfl, rfl⟩⟩
   | cCloseStep =>
     rcases step_cCloseStep h with ⟨_, _, rfl⟩ | ⟨_, _, rfl⟩ | ⟨_, _, _, rfl⟩ <;> exact ⟨rfl, .inl ⟨rfl, rfl⟩⟩
+  | ctxEnds => obtain ⟨_, _, rfl⟩ := step_ctxEnds h; exact ⟨rfl, .inl ⟨rfl, rfl⟩⟩
+  | cExpire => obtain ⟨_, rfl⟩ := step_cExpire h; exact ⟨rfl, .inl ⟨rfl, rfl⟩⟩
+
+/-- no step changes where the context comes from -/
+theorem step_origin {s s' : St V} {l : Label V} (h : step s l = some s') : s'.origin = s.origin := by
+  cases l with
+  | inItem i v => obtain ⟨g, _, _, rfl⟩ := step_inItem h; rfl
+  | inEnd i => obtain ⟨g, _, _, rfl⟩ := step_inEnd h; rfl
+  | inErr i e => obtain ⟨g, _, _, rfl⟩ := step_inErr h; rfl
+  | inCtx i => obtain ⟨g, _, _, _, rfl⟩ := step_inCtx h; rfl
+  | ctxEnds => obtain ⟨_, _, rfl⟩ := step_ctxEnds h; rfl
+  | cas i => obtain ⟨g, e, _, _, hc⟩ := step_cas h; rcases hc with ⟨_, rfl⟩ | ⟨_, rfl⟩ <;> rfl
+  | win i =>
+    obtain ⟨g, e, _, hc⟩ := step_win h
+    rcases hc with ⟨rest, _, rfl⟩ | ⟨rest, _, rfl⟩ | ⟨_, rfl⟩ <;> rfl
+  | sendOk i => obtain ⟨g, v, live, _, _, _, rfl⟩ := step_sendOk h; rfl
+  | sendFail i => obtain ⟨g, v, _, _, _, rfl⟩ := step_sendFail h; rfl
+  | exitStep i =>
+    obtain ⟨g, _, hc⟩ := step_exitStep h
+    rcases hc with ⟨rest, _, rfl⟩ | ⟨d, rest, _, _, _, rfl⟩ | ⟨d, rest, _, _, rfl⟩ | ⟨rest, _, rfl⟩ |
+      ⟨rest, _, rfl⟩ | ⟨_, rfl⟩ <;> rfl
+  | cCall live => obtain ⟨_, rfl⟩ := step_cCall h; rfl
+  | cEnd => obtain ⟨_, _, _, rfl⟩ := step_cEnd h; rfl
+  | cCtx => obtain ⟨_, rfl⟩ := step_cCtx h; rfl
+  | cExpire => obtain ⟨_, rfl⟩ := step_cExpire h; rfl
+  | cClose => obtain ⟨_, rfl⟩ := step_cClose h; rfl
+  | cCloseStep => rcases step_cCloseStep h with ⟨_, _, rfl⟩ | ⟨_, _, rfl⟩ | ⟨_, _, _, rfl⟩ <;> rfl
 
 
 /-! ### the local invariant -/
@@ -178,11 +205,12 @@ theorem trans_localOK {g g' : G V} (t : Trans g g') (h : LocalOK g) : LocalOK g'
 /-- First group of invariants: sizes and the local invariant of every goroutine. -/
 structure InvA (k : Nat) (s : St V) : Prop where
   hk : s.k = k
+  org : s.origin = ctxOrigin
   len : s.gs.length = k
   loc : ∀ g, g ∈ s.gs → LocalOK g
 
 theorem invA_init (k : Nat) : InvA k (init V k) := by
-  refine ⟨rfl, by simp [init], ?_⟩
+  refine ⟨rfl, rfl, by simp [init], ?_⟩
   intro g hg
   simp [init] at hg
   rw [hg.2]; exact localOK_init
@@ -190,9 +218,10 @@ theorem invA_init (k : Nat) : InvA k (init V k) := by
 theorem invA_step {k : Nat} {s s' : St V} {l : Label V} (hi : InvA k s) (h : step s l = some s') :
     InvA k s' := by
   obtain ⟨hk, hcase⟩ := step_local h
+  have ho : s'.origin = ctxOrigin := (step_origin h).trans hi.org
   rcases hcase with ⟨hgs, _⟩ | ⟨i, g, g', hg, t, hgs, _⟩
-  · exact ⟨hk ▸ hi.hk, hgs ▸ hi.len, hgs ▸ hi.loc⟩
-  · refine ⟨hk ▸ hi.hk, by rw [hgs]; simpa using hi.len, ?_⟩
+  · exact ⟨hk ▸ hi.hk, ho, hgs ▸ hi.len, hgs ▸ hi.loc⟩
+  · refine ⟨hk ▸ hi.hk, ho, by rw [hgs]; simpa using hi.len, ?_⟩
     intro x hx
     rw [hgs] at hx
     rcases List.mem_or_eq_of_mem_set hx with hx | rfl
